@@ -60,6 +60,7 @@ VIEW view
 INVARIANT Consistent
 INVARIANT EmitState
 PROPERTY ExactlyOnce
+PROPERTY InitiallyIgnoredRefused
 """
 
 
@@ -84,15 +85,17 @@ def _validate_file(path, tag):
     return fails
 
 
-def validate(rep, trace, what, conds, shards=8):
+def validate(rep, trace, ranges, shards=8):
     """Validate an ndjson trace against TrapAbs; report every non-conforming
-    record.  Returns dict(events, failures, skipped, wall)."""
+    record.  `ranges` = [(first line, end line, name, conds)] describes which
+    configuration each part of the file came from."""
     t0 = time.time()
     with open(trace) as f:
         lines = f.readlines()
     n = len(lines)
+    per = {name: {"records": b - a, "rejected": 0, "skipped": 0} for a, b, name, _ in ranges}
     if n == 0:
-        return {"events": 0, "failures": 0, "skipped": 0, "wall": 0.0}
+        return {"events": 0, "failures": 0, "skipped": 0, "wall": 0.0, "per_range": per}
     target = max(1, (n + shards - 1) // shards)
     pieces, start = [], 0
     while start < n:
@@ -116,10 +119,12 @@ def validate(rep, trace, what, conds, shards=8):
         except OSError:
             pass
     nfail = skipped = 0
+    rejfile = os.path.join(os.path.dirname(trace), "rejected.ndjson")
     for (a, b), fails in zip(pieces, results):
         for fl in fails:
             idx = a + fl["l"] - 1          # global 0-based index of the failing record
             rec = json.loads(lines[idx])
+            name, conds = next((nm, cs) for x, y, nm, cs in ranges if x <= idx < y)
             # the history: back to the last reset
             k = idx
             while k >= 0 and not _is_reset(lines[k]):
@@ -131,16 +136,31 @@ def validate(rep, trace, what, conds, shards=8):
                 while m < n and not _is_reset(lines[m]):
                     m += 1
                 skipped += m - idx - 1
+                per[name]["skipped"] += m - idx - 1
             why = sorted(fl["why"])
             op = rec.get("op", {"op": "reset"})
             key = {"op": op.get("op"), "c": op.get("c", ""), "a": op.get("a", ""), "ov": op.get("ov", False),
                    "ii": op.get("ii", False), "ks": op.get("ks", False), "why": " | ".join(why),
+                   "symptom": _symptom(reset["init"], rec),
                    "init": reset["init"], "h": [_short(o) for o in hist]}
             replay_obj = {"init": reset["init"], "conds": conds.split(","), "h": hist,
                           "op": rec.get("op"), "observed": rec, "why": why}
-            rep.violation(key, f"{what}: step not allowed by TrapAbs: {why}", replay_obj)
+            rep.violation(key, f"{name}: step not allowed by TrapAbs: {why}", replay_obj)
             nfail += 1
-    return {"events": n, "failures": nfail, "skipped": skipped, "wall": time.time() - t0}
+            per[name]["rejected"] += 1
+            with open(rejfile, "a") as rf:
+                rf.write(json.dumps({"what": name, "key": key, "observed": rec}) + "\n")
+    return {"events": n, "failures": nfail, "skipped": skipped, "wall": time.time() - t0, "per_range": per}
+
+
+def _symptom(init, rec):
+    """Short description (for matching known findings only) of entries that
+    claim to be inherited but do not show the inherited action."""
+    out = []
+    for c, e in sorted(rec.get("post", {}).get("c", {}).items()):
+        if e.get("orig") == "I" and c != "EXIT" and e.get("act") != ("I" if init.get(c) == "I" else "D"):
+            out.append(f"{c}:inherited-{init.get(c)}-shown-as-{e.get('act')}")
+    return ",".join(out)
 
 
 def _short(o):
@@ -154,12 +174,25 @@ def _short(o):
     return s
 
 
+def _generate(wd, cfg, conds, name, workers):
+    """TLC model check + state enumeration, then replay on the real TrapSet."""
+    gen = os.path.join(wd, name + ".states.ndjson")
+    r = vlib.tlc("Trap", cfg, workers=workers, json_out=gen, coverage=(name == QUICK[1][0]), timeout=2400,
+                 workdir=os.path.join(wd, "meta-" + name))
+    vlib.tlc_must_pass(r, f"model check {name}")
+    vlib.log(f"[tlc] {name}: {r.distinct} distinct states, {r.generated} generated, depth {r.depth}, {r.wall:.1f}s")
+    trace = os.path.join(wd, name + ".trace.ndjson")
+    _, _, err = vlib.run_harness(PKG, ["replay", "--conds", conds, "--in", gen, "--out", trace])
+    st = json.loads(err.strip().splitlines()[-1])
+    os.remove(gen)
+    return r, st, trace
+
+
 def run(tier):
     t0 = time.time()
     wd = vlib.workdir(PID)
     rep = vlib.Reporter(PID)
     vlib.build_harness(PKG)
-    states = transitions = validated = tries = drift = failures = skipped = 0
     coverage_actions = {}
     samples = []
     configs = [(c, conds, c) for c, conds in QUICK]
@@ -170,71 +203,75 @@ def run(tier):
             with open(path, "w") as f:
                 f.write(CFG_TEMPLATE % (", ".join(f'"{s}"' for s in sigs), "TRUE" if ex else "FALSE", maxh))
             configs.append((path, ",".join(sigs) + (",EXIT" if ex else ""), name))
-    per_config = []
-    for cfg, conds, name in configs:
-        gen = os.path.join(wd, name + ".states.ndjson")
-        r = vlib.tlc("Trap", cfg, workers=8, json_out=gen, coverage=(name == QUICK[1][0]), timeout=2400)
-        vlib.tlc_must_pass(r, f"model check {name}")
-        vlib.log(f"[tlc] {name}: {r.distinct} distinct states, {r.generated} generated, depth {r.depth}, {r.wall:.1f}s")
-        states += r.distinct
-        transitions += r.generated
-        for a, c in r.coverage.items():
-            coverage_actions[a] = coverage_actions.get(a, 0) + c
-        trace = os.path.join(wd, name + ".trace.ndjson")
-        _, _, err = vlib.run_harness(PKG, ["replay", "--conds", conds, "--in", gen, "--out", trace])
-        st = json.loads(err.strip().splitlines()[-1])
-        info = validate(rep, trace, f"replay of {name}", conds)
-        vlib.log(f"[p2] {name}: {st['states']} states x {st['alphabet']} operations = {st['tries']} tries, "
-                 f"{info['events']} records validated against TrapAbs in {info['wall']:.1f}s "
-                 f"({info['failures']} rejected, {info['skipped']} skipped downstream, drift {st['drift']})")
-        validated += info["events"]
-        tries += st["tries"]
-        drift += st["drift"]
-        failures += info["failures"]
-        skipped += info["skipped"]
-        per_config.append({"cfg": name, "conds": conds, "tlc_states": r.distinct, "tlc_transitions": r.generated,
-                           "depth": r.depth, "live_states_replayed": st["states"], "tries": st["tries"],
-                           "records": info["events"], "rejected": info["failures"],
-                           "skipped_downstream_of_a_rejected_step": info["skipped"], "drift": st["drift"]})
-        if len(samples) < 3:
+    for d in ("meta-" + n for _, _, n in configs):
+        os.makedirs(os.path.join(wd, d), exist_ok=True)
+    # P1 + P2: model check / enumerate / replay, three configurations at a time
+    with ThreadPoolExecutor(max_workers=3) as ex:
+        gens = list(ex.map(lambda c: _generate(wd, c[0], c[1], c[2], 4), configs))
+    # P3 input: random long histories over all eleven conditions
+    rtrace = os.path.join(wd, "random.trace.ndjson")
+    runs, steps = (400, 40) if tier == "quick" else (6000, 60)
+    _, _, err = vlib.run_harness(PKG, ["random", "--runs", str(runs), "--steps", str(steps), "--out", rtrace])
+    rst = json.loads(err.strip().splitlines()[-1])
+    # one validation pass over everything (each history starts with its own reset record)
+    alltrace = os.path.join(wd, "all.trace.ndjson")
+    ranges = []
+    pos = 0
+    with open(alltrace, "w") as out:
+        for (cfg, conds, name), (r, st, trace) in list(zip(configs, gens)) + [((None, ",".join(ALL_CONDS), "random"), (None, rst, rtrace))]:
+            n = 0
             with open(trace) as f:
                 for i, line in enumerate(f):
-                    if i in (0, 57, 4242):
+                    out.write(line)
+                    n += 1
+                    if len(samples) < 3 and i in (0, 57, 4242) and name == QUICK[0][0]:
                         samples.append(json.loads(line))
-        os.remove(gen)
-        os.remove(trace)
-    # P3: random long histories over all eleven conditions
-    trace = os.path.join(wd, "random.trace.ndjson")
-    runs, steps = (400, 40) if tier == "quick" else (6000, 60)
-    _, _, err = vlib.run_harness(PKG, ["random", "--runs", str(runs), "--steps", str(steps), "--out", trace])
-    rst = json.loads(err.strip().splitlines()[-1])
-    info = validate(rep, trace, "random history", ",".join(ALL_CONDS))
-    vlib.log(f"[p3] random histories: {runs} histories, {info['events']} records validated in {info['wall']:.1f}s "
-             f"({info['failures']} rejected, {info['skipped']} skipped downstream)")
-    random_steps = info["events"]
-    failures += info["failures"]
-    skipped += info["skipped"]
-    os.remove(trace)
-
+            ranges.append((pos, pos + n, name, conds))
+            pos += n
+            os.remove(trace)
+    info = validate(rep, alltrace, ranges, shards=8 if tier == "quick" else 12)
+    os.remove(alltrace)
+    vlib.log(f"[p3] {info['events']} records validated against TrapAbs in {info['wall']:.1f}s "
+             f"({info['failures']} rejected, {info['skipped']} skipped downstream of a rejected step)")
+    states = transitions = tries = drift = 0
+    per_config = []
+    for (cfg, conds, name), (r, st, trace) in zip(configs, gens):
+        states += r.distinct
+        transitions += r.generated
+        tries += st["tries"]
+        drift += st["drift"]
+        for a, c in r.coverage.items():
+            coverage_actions[a] = coverage_actions.get(a, 0) + c
+        pc = info["per_range"][name]
+        vlib.log(f"[p2] {name}: {st['states']} live states x {st['alphabet']} operations = {st['tries']} tries; "
+                 f"{pc['records']} records, {pc['rejected']} rejected, drift {st['drift']}")
+        per_config.append({"cfg": name, "conds": conds, "tlc_states": r.distinct, "tlc_transitions": r.generated,
+                           "depth": r.depth, "live_states_replayed": st["states"], "tries": st["tries"],
+                           "records": pc["records"], "rejected": pc["rejected"],
+                           "skipped_downstream_of_a_rejected_step": pc["skipped"], "drift": st["drift"]})
+    rr = info["per_range"]["random"]
+    vlib.log(f"[p3] random histories: {runs} histories of <= {steps} operations over {len(ALL_CONDS)} conditions, "
+             f"{rr['records']} records, {rr['rejected']} rejected")
     rc = rep.finish()
     unexercised = [a for a, c in coverage_actions.items() if c == 0]
     vlib.write_evidence(PID, tier, {
         "states": states,
         "transitions": transitions,
-        "traces_validated_against_impl": validated + random_steps,
+        "traces_validated_against_impl": info["events"],
         "samples": samples,
-        "evaluations": validated + random_steps,
+        "evaluations": info["events"],
         "distinct_nontrivial": tries,
         "rule": "one record per (distinct live model state, operation of the alphabet) executed on the real TrapSet "
-                "over the simulated process; history steps and random histories counted separately in `evaluations`",
+                "over the simulated process; history steps and random histories are counted in `evaluations` only",
         "exhaustive": True,
         "configs": per_config,
         "tlc_action_coverage": coverage_actions,
         "actions_not_exercised": unexercised,
-        "random_history_records": random_steps,
+        "random_history_records": rr["records"],
+        "random_histories": runs,
         "random_histories_ended_by_signal": rst.get("histories_ended_by_signal"),
-        "records_rejected": failures,
-        "records_skipped_downstream_of_a_rejected_step": skipped,
+        "records_rejected": info["failures"],
+        "records_skipped_downstream_of_a_rejected_step": info["skipped"],
         "drift": drift,
         "phase2_whole_shell": "not run (shared shell runner yvcommon::shell absent)",
     }, time.time() - t0, violations=len(rep.violations), assumptions=[
